@@ -502,7 +502,13 @@ func (g *gen) genCrash(nops int, profile string) {
 		case profile == "manifest" && x < 30:
 			switch g.r.IntN(4) {
 			case 0:
-				g.add(DBOp{K: "flush"})
+				if g.r.IntN(2) == 0 {
+					// the version edits of the flush and of the operations that
+					// follow (ingest, compaction, excise) overlap
+					g.add(DBOp{K: "aflush"})
+				} else {
+					g.add(DBOp{K: "flush"})
+				}
 			case 1:
 				a, b := g.span()
 				g.add(DBOp{K: "compact", Key: a, End: b})
